@@ -27,6 +27,17 @@ func inlineFuncsBy(fn *ssa.Function, policy func(caller, callee *ssa.Function) b
 		}
 		for _, b := range f.Blocks {
 			for _, in := range b.Instrs {
+				if mc, ok := in.(*ssa.MakeClosure); ok {
+					// closures built here may be explored inline (handed to a helper that calls them)
+					if cf, ok := mc.Fn.(*ssa.Function); ok && !seen[cf] && len(cf.Blocks) > 0 && len(cf.Blocks) <= 80 {
+						if _, isGo := goOrDeferUse(mc); !isGo {
+							seen[cf] = true
+							out = append(out, cf)
+							walk(cf, depth+1)
+						}
+					}
+					continue
+				}
 				call, ok := in.(*ssa.Call)
 				if !ok || call.Call.IsInvoke() {
 					continue
@@ -125,6 +136,12 @@ func explorationRoots(c *Ctx, fn *ssa.Function) []*ssa.Function {
 			return
 		}
 		seen[f] = true
+		if f.Parent() != nil && depth < 3 {
+			// a closure: explored inline where its enclosing function (or a helper that function
+			// hands it to) calls it - judged from the enclosing function
+			walk(f.Parent(), depth+1)
+			return
+		}
 		if depth < 3 && inlinedEverywhere(c, f) {
 			for _, s := range c.P.CallersOf(f) {
 				walk(s.Parent(), depth+1)
@@ -226,6 +243,37 @@ func staticOrigins(c *Ctx, root *ssa.Function, v ssa.Value, accept func(ssa.Valu
 				}
 			}
 		case *ssa.UnOp:
+			// a variable captured by a closure that is explored inline: the captured variable itself
+			if fv, ok := x.X.(*ssa.FreeVar); ok && x.Op == token.MUL {
+				for f := range inl {
+					for _, b := range f.Blocks {
+						for _, in := range b.Instrs {
+							mc, ok := in.(*ssa.MakeClosure)
+							if !ok || mc.Fn != ssa.Value(fv.Parent()) {
+								continue
+							}
+							for j, q := range fv.Parent().FreeVars {
+								if q == fv && j < len(mc.Bindings) {
+									if al, ok := mc.Bindings[j].(*ssa.Alloc); ok {
+										n := 0
+										for _, r := range *al.Referrers() {
+											if s, ok := r.(*ssa.Store); ok && s.Addr == ssa.Value(al) {
+												n++
+												if r2, why := walk(s.Val, depth+1); !r2 {
+													return false, why
+												}
+											}
+										}
+										if n > 0 {
+											return true, ""
+										}
+									}
+								}
+							}
+						}
+					}
+				}
+			}
 			// a local variable (spilled named result, address-taken local): every value stored into it
 			if al, ok := x.X.(*ssa.Alloc); ok && x.Op == token.MUL {
 				n := 0
@@ -319,4 +367,24 @@ func loopsWith(in ssa.Instruction) []*ssa.BasicBlock {
 	}
 	sort.Slice(out, func(i, j int) bool { return out[i].Index < out[j].Index })
 	return out
+}
+
+// goOrDeferUse: the closure is started with `go` or deferred (not explored inline).
+func goOrDeferUse(mc *ssa.MakeClosure) (ssa.Instruction, bool) {
+	if mc.Referrers() == nil {
+		return nil, false
+	}
+	for _, r := range *mc.Referrers() {
+		switch x := r.(type) {
+		case *ssa.Go:
+			if x.Call.Value == ssa.Value(mc) {
+				return r, true
+			}
+		case *ssa.Defer:
+			if x.Call.Value == ssa.Value(mc) {
+				return r, true
+			}
+		}
+	}
+	return nil, false
 }
